@@ -5,7 +5,9 @@
   taurex/util/hdf5.py (the loaders: `load_generic_profile_from_hdf5`, the per-component loaders, `load_chemistry_from_hdf5`,
   `load_model_from_hdf5`, `taurex_hdf5_to_model`, `taurex_hdf5_to_observation`) and the component `write` methods of
   taurex/data/profiles/temperature/{tprofile,isothermal,guillot,npoint}.py, taurex/model/{model,simplemodel,transmission}.py,
-  taurex/data/profiles/chemistry/{chemistry,taurexchemistry}.py.  The regenerated definitions are dynamically typed Python (values `Dyn.Val`, exceptions
+  taurex/data/profiles/chemistry/{chemistry,taurexchemistry}.py, taurex/data/stellar/star.py, taurex/data/planet.py,
+  taurex/data/profiles/pressure/pressureprofile.py, taurex/data/profiles/chemistry/gas/{gas,constantgas,twolayergas,
+  twopointgas,powergas}.py, taurex/contributions/{contribution,cia,simpleclouds,flatmie}.py.  The regenerated definitions are dynamically typed Python (values `Dyn.Val`, exceptions
   `Dyn.Exc`, primitives of `TaurexModel/Gen/DynPrelude.lean`), polymorphic in the monad and in one oracle `ext` for what the
   code asks of numpy, h5py and the other objects.  The theorems below instantiate the oracle with the model's description
   of those objects (`Proofs/C16SrcSpectrum.lean`, `Proofs/C16SrcStore.lean`, `Proofs/C16SrcLoad.lean`, `Proofs/C16SrcHdf5.lean`,
@@ -571,6 +573,356 @@ theorem src_taurexchemistry_write (w : WWorld α) (hw : WWorldOK w) (c : List Na
   rw [forM_subs w (q ++ ["Chemistry"]) _ (fun k v s => by simp [eff_bind, Dyn.callMethod]) gs _ ges hges]
   simp only [flat, flatNode, flat_append, stringNode, List.append_assoc, List.cons_append, List.nil_append, List.append_nil]
 
+/-! ### star, planet, pressure profile, gas profiles, contributions -/
+
+/-- **`Star.write(output)`** (`BlackbodyStar` inherits it) creates the group `Star`: the class name under `star_type`, the
+    temperature, radius and mass in solar units (`self._radius/RSOL`, `self._mass/MSOL`: `w.div` of the attribute and the
+    module constant), distance, K magnitude, metallicity, the radius in metres, the spectral emission density as an array
+    and the mass in kg — what the model's writer stores for that `Output.writeComponent` -/
+theorem src_star_write (w : WWorld α) (hw : WWorldOK w) (c : List Nat) (attr : String → Option (Value α))
+    (part : String → Option (SubComp α)) (T D mK met R : Value α) (r m rsol msol : α) (sed : Arr α)
+    (hT : Scalar T) (hD : Scalar D) (hmK : Scalar mK) (hmet : Scalar met) (hR : Scalar R)
+    (h1 : attr "temperature" = some T) (h2 : attr "_radius" = some (.float r)) (h3 : attr "distance" = some D)
+    (h4 : attr "_mass" = some (.float m)) (h5 : attr "magnitudeK" = some mK) (h6 : attr "_metallicity" = some met)
+    (h7 : attr "radius" = some R) (h8 : attr "spectralEmissionDensity" = some (.array sed))
+    (hc1 : w.consts "RSOL" = some rsol) (hc2 : w.consts "MSOL" = some msol)
+    (hz1 : FloatLike.isZero rsol = false) (hz2 : FloatLike.isZero msol = false)
+    (q : List String) (s : Log α) (es : List (String × Node α))
+    (hm : storeThing "Star" (writeComponent "star_type" c
+      [("temperature", T), ("radius", .float (w.div r rsol)), ("distance", D), ("mass", .float (w.div m msol)),
+       ("magnitudeK", mK), ("metallicity", met), ("radius_m", R), ("SED", .array sed), ("mass_kg", .float m)]) = .ok es) :
+    SrcC16.star_write w.ext (.obj (.comp c attr part)) (.obj (.group q)) s
+      = (.ok (.obj (.group (q ++ ["Star"]))), s ++ flat q es) := by
+  rw [store_component_leaves _ _ _ _ (leaves_cons (leaf_scalar hT) (leaves_cons (leaf_scalar (scalar_float _))
+    (leaves_cons (leaf_scalar hD) (leaves_cons (leaf_scalar (scalar_float _)) (leaves_cons (leaf_scalar hmK)
+    (leaves_cons (leaf_scalar hmet) (leaves_cons (leaf_scalar hR) (leaves_cons (leaf_array _)
+    (leaves_cons (leaf_scalar (scalar_float _)) leaves_nil)))))))))] at hm
+  obtain rfl := Except.ok.inj hm
+  unfold SrcC16.star_write
+  simp only [eff_bind, Dyn.callMethod, w_create_group, Dyn.getAttr, w_class, w_name, w_write_string, hw c, eff_pure,
+    w_attr w c attr part "temperature" _ (by decide) h1, w_attr w c attr part "_radius" _ (by decide) h2,
+    w_attr w c attr part "distance" _ (by decide) h3, w_attr w c attr part "_mass" _ (by decide) h4,
+    w_attr w c attr part "magnitudeK" _ (by decide) h5, w_attr w c attr part "_metallicity" _ (by decide) h6,
+    w_attr w c attr part "radius" _ (by decide) h7, w_attr w c attr part "spectralEmissionDensity" _ (by decide) h8,
+    w_const w "RSOL" rsol (by decide) hc1, w_const w "MSOL" msol (by decide) hc2, embW, w_div w _ _ hz1, w_div w _ _ hz2,
+    w_write_scalar w _ _ _ hT, w_write_scalar w _ _ _ hD, w_write_scalar w _ _ _ hmK, w_write_scalar w _ _ _ hmet,
+    w_write_scalar w _ _ _ hR, w_write_float, w_write_array, flat, List.map,
+    flatNode_leaf _ _ (leaf_scalar hT), flatNode_leaf _ _ (leaf_scalar hD), flatNode_leaf _ _ (leaf_scalar hmK),
+    flatNode_leaf _ _ (leaf_scalar hmet), flatNode_leaf _ _ (leaf_scalar hR),
+    leafNode_float, leafNode_array, flatNode, List.append_assoc, List.cons_append, List.nil_append, List.append_nil]
+
+/-- **`BasePlanet.write(output)`** (`Planet` inherits it): the class name, mass / radius / distance in Jupiter masses /
+    Jupiter radii / AU (`self._mass/MJUP`, …: `w.div` of the attribute and the module constant), the impact parameter, the
+    orbital period, albedo, transit time, then mass, radius and surface gravity in SI units — what the model's writer
+    stores for that `Output.writeComponent` under `Planet` -/
+theorem src_planet_write (w : WWorld α) (hw : WWorldOK w) (c : List Nat) (attr : String → Option (Value α))
+    (part : String → Option (SubComp α)) (imp per alb tt M R g : Value α) (pm pr pd mjup rjup au : α)
+    (himp : Scalar imp) (hper : Scalar per) (halb : Scalar alb) (htt : Scalar tt) (hM : Scalar M) (hR : Scalar R)
+    (hg : Scalar g)
+    (h1 : attr "_mass" = some (.float pm)) (h2 : attr "_radius" = some (.float pr))
+    (h3 : attr "_distance" = some (.float pd)) (h4 : attr "_impact" = some imp) (h5 : attr "orbitalPeriod" = some per)
+    (h6 : attr "albedo" = some alb) (h7 : attr "transitTime" = some tt) (h8 : attr "mass" = some M)
+    (h9 : attr "radius" = some R) (h10 : attr "gravity" = some g)
+    (hc1 : w.consts "MJUP" = some mjup) (hc2 : w.consts "RJUP" = some rjup) (hc3 : w.consts "AU" = some au)
+    (hz1 : FloatLike.isZero mjup = false) (hz2 : FloatLike.isZero rjup = false) (hz3 : FloatLike.isZero au = false)
+    (q : List String) (s : Log α) (es : List (String × Node α))
+    (hm : storeThing "Planet" (writeComponent "planet_type" c
+      [("planet_mass", .float (w.div pm mjup)), ("planet_radius", .float (w.div pr rjup)),
+       ("planet_distance", .float (w.div pd au)), ("impact_param", imp), ("orbital_period", per), ("albedo", alb),
+       ("transit_time", tt), ("mass_kg", M), ("radius_m", R), ("surface_gravity", g)]) = .ok es) :
+    SrcC16.planet_write w.ext (.obj (.comp c attr part)) (.obj (.group q)) s
+      = (.ok (.obj (.group (q ++ ["Planet"]))), s ++ flat q es) := by
+  rw [store_component_leaves _ _ _ _ (leaves_cons (leaf_scalar (scalar_float _)) (leaves_cons (leaf_scalar (scalar_float _))
+    (leaves_cons (leaf_scalar (scalar_float _)) (leaves_cons (leaf_scalar himp) (leaves_cons (leaf_scalar hper)
+    (leaves_cons (leaf_scalar halb) (leaves_cons (leaf_scalar htt) (leaves_cons (leaf_scalar hM)
+    (leaves_cons (leaf_scalar hR) (leaves_cons (leaf_scalar hg) leaves_nil))))))))))] at hm
+  obtain rfl := Except.ok.inj hm
+  unfold SrcC16.planet_write
+  simp only [eff_bind, Dyn.callMethod, w_create_group, Dyn.getAttr, w_class, w_name, w_write_string, hw c, eff_pure,
+    w_attr w c attr part "_mass" _ (by decide) h1, w_attr w c attr part "_radius" _ (by decide) h2,
+    w_attr w c attr part "_distance" _ (by decide) h3, w_attr w c attr part "_impact" _ (by decide) h4,
+    w_attr w c attr part "orbitalPeriod" _ (by decide) h5, w_attr w c attr part "albedo" _ (by decide) h6,
+    w_attr w c attr part "transitTime" _ (by decide) h7, w_attr w c attr part "mass" _ (by decide) h8,
+    w_attr w c attr part "radius" _ (by decide) h9, w_attr w c attr part "gravity" _ (by decide) h10,
+    w_const w "MJUP" mjup (by decide) hc1, w_const w "RJUP" rjup (by decide) hc2, w_const w "AU" au (by decide) hc3,
+    embW, w_div w _ _ hz1, w_div w _ _ hz2, w_div w _ _ hz3,
+    w_write_scalar w _ _ _ himp, w_write_scalar w _ _ _ hper, w_write_scalar w _ _ _ halb, w_write_scalar w _ _ _ htt,
+    w_write_scalar w _ _ _ hM, w_write_scalar w _ _ _ hR, w_write_scalar w _ _ _ hg, w_write_float, flat, List.map,
+    flatNode_leaf _ _ (leaf_scalar himp), flatNode_leaf _ _ (leaf_scalar hper), flatNode_leaf _ _ (leaf_scalar halb),
+    flatNode_leaf _ _ (leaf_scalar htt), flatNode_leaf _ _ (leaf_scalar hM), flatNode_leaf _ _ (leaf_scalar hR),
+    flatNode_leaf _ _ (leaf_scalar hg),
+    leafNode_float, flatNode, List.append_assoc, List.cons_append, List.nil_append, List.append_nil]
+
+/-- `PressureProfile.write(output)`, as the log it leaves -/
+theorem pressure_write_log (w : WWorld α) (hw : WWorldOK w) (c : List Nat) (attr : String → Option (Value α))
+    (part : String → Option (SubComp α)) (nl : Value α) (prof : Arr α) (hnl : Scalar nl)
+    (h1 : attr "_nlayers" = some nl) (h2 : attr "profile" = some (.array prof)) (q : List String) (s : Log α) :
+    SrcC16.pressure_write w.ext (.obj (.comp c attr part)) (.obj (.group q)) s
+      = (.ok (.obj (.group (q ++ ["Pressure"]))),
+         s ++ [(q, "Pressure", .group []), (q ++ ["Pressure"], "pressure_type", .vstr c),
+               (q ++ ["Pressure"], "nlayers", leafNode nl), (q ++ ["Pressure"], "profile", .num prof)]) := by
+  unfold SrcC16.pressure_write
+  simp only [eff_bind, Dyn.callMethod, w_create_group, Dyn.getAttr, w_class, w_name, w_write_string, hw c, eff_pure,
+    w_attr w c attr part "_nlayers" _ (by decide) h1, w_attr w c attr part "profile" _ (by decide) h2, embW,
+    w_write_scalar w _ _ _ hnl, w_write_array, List.append_assoc, List.cons_append, List.nil_append]
+
+/-- **`PressureProfile.write(output)`** creates the group `Pressure`: the class name under `pressure_type`, the number of
+    layers and the pressure profile as an array -/
+theorem src_pressure_write (w : WWorld α) (hw : WWorldOK w) (c : List Nat) (attr : String → Option (Value α))
+    (part : String → Option (SubComp α)) (nl : Value α) (prof : Arr α) (hnl : Scalar nl)
+    (h1 : attr "_nlayers" = some nl) (h2 : attr "profile" = some (.array prof)) (q : List String) (s : Log α)
+    (es : List (String × Node α))
+    (hm : storeThing "Pressure" (writeComponent "pressure_type" c [("nlayers", nl), ("profile", .array prof)]) = .ok es) :
+    SrcC16.pressure_write w.ext (.obj (.comp c attr part)) (.obj (.group q)) s
+      = (.ok (.obj (.group (q ++ ["Pressure"]))), s ++ flat q es) := by
+  rw [store_component_leaves _ _ _ _ (leaves_cons (leaf_scalar hnl) (leaves_cons (leaf_array _) leaves_nil))] at hm
+  obtain rfl := Except.ok.inj hm
+  rw [pressure_write_log w hw c attr part nl prof hnl h1 h2]
+  simp only [flat, List.map, flatNode_leaf _ _ (leaf_scalar hnl), leafNode_array, flatNode, List.append_assoc,
+    List.cons_append, List.nil_append, List.append_nil]
+
+/-- **`SimplePressureProfile.write(output)`**: `PressureProfile.write`, then the maximum and the minimum pressure under
+    the constructor's names `atm_max_pressure`, `atm_min_pressure` -/
+theorem src_simplepressure_write (w : WWorld α) (hw : WWorldOK w) (c : List Nat) (attr : String → Option (Value α))
+    (part : String → Option (SubComp α)) (nl pmax pmin : Value α) (prof : Arr α) (hnl : Scalar nl) (hmax : Scalar pmax)
+    (hmin : Scalar pmin) (h1 : attr "_nlayers" = some nl) (h2 : attr "profile" = some (.array prof))
+    (h3 : attr "_atm_max_pressure" = some pmax) (h4 : attr "_atm_min_pressure" = some pmin)
+    (q : List String) (s : Log α) (es : List (String × Node α))
+    (hm : storeThing "Pressure" (writeComponent "pressure_type" c
+      [("nlayers", nl), ("profile", .array prof), ("atm_max_pressure", pmax), ("atm_min_pressure", pmin)]) = .ok es) :
+    SrcC16.simplepressure_write w.ext (.obj (.comp c attr part)) (.obj (.group q)) s
+      = (.ok (.obj (.group (q ++ ["Pressure"]))), s ++ flat q es) := by
+  rw [store_component_leaves _ _ _ _ (leaves_cons (leaf_scalar hnl) (leaves_cons (leaf_array _)
+    (leaves_cons (leaf_scalar hmax) (leaves_cons (leaf_scalar hmin) leaves_nil))))] at hm
+  obtain rfl := Except.ok.inj hm
+  unfold SrcC16.simplepressure_write
+  simp only [eff_bind, pressure_write_log w hw c attr part nl prof hnl h1 h2, Dyn.getAttr, Dyn.callMethod, eff_pure,
+    w_attr w c attr part "_atm_max_pressure" _ (by decide) h3, w_attr w c attr part "_atm_min_pressure" _ (by decide) h4,
+    w_write_scalar w _ _ _ hmax, w_write_scalar w _ _ _ hmin, flat, List.map, flatNode_leaf _ _ (leaf_scalar hnl),
+    flatNode_leaf _ _ (leaf_scalar hmax), flatNode_leaf _ _ (leaf_scalar hmin), leafNode_array, flatNode,
+    List.append_assoc, List.cons_append, List.nil_append, List.append_nil]
+
+/-- `Gas.write(output)`, as the log it leaves: a group named like the molecule with the class name and the molecule name -/
+theorem gas_write_log (w : WWorld α) (hw : WWorldOK w) (c : List Nat) (attr : String → Option (Value α))
+    (part : String → Option (SubComp α)) (mol : List Nat) (h1 : attr "molecule" = some (.str mol))
+    (h2 : attr "_molecule_name" = some (.str mol)) (q : List String) (s : Log α) :
+    SrcC16.gas_write w.ext (.obj (.comp c attr part)) (.obj (.group q)) s
+      = (.ok (.obj (.group (q ++ [w.enc mol]))),
+         s ++ [(q, w.enc mol, .group []), (q ++ [w.enc mol], "gas_type", .vstr c),
+               (q ++ [w.enc mol], "molecule_name", .vstr mol)]) := by
+  unfold SrcC16.gas_write
+  simp only [eff_bind, Dyn.callMethod, w_create_group, Dyn.getAttr, w_class, w_name, w_write_string, hw c, hw mol, eff_pure,
+    w_attr w c attr part "molecule" _ (by decide) h1, w_attr w c attr part "_molecule_name" _ (by decide) h2, embW,
+    List.append_assoc, List.cons_append, List.nil_append]
+
+/-- **`Gas.write(output)`** creates a group named like the molecule (`self.molecule`, the property returning
+    `self._molecule_name`) with the class name under `gas_type` and the molecule name -/
+theorem src_gas_write (w : WWorld α) (hw : WWorldOK w) (c : List Nat) (attr : String → Option (Value α))
+    (part : String → Option (SubComp α)) (mol : List Nat) (h1 : attr "molecule" = some (.str mol))
+    (h2 : attr "_molecule_name" = some (.str mol)) (q : List String) (s : Log α) (es : List (String × Node α))
+    (hm : storeThing (w.enc mol) (writeComponent "gas_type" c [("molecule_name", .str mol)]) = .ok es) :
+    SrcC16.gas_write w.ext (.obj (.comp c attr part)) (.obj (.group q)) s
+      = (.ok (.obj (.group (q ++ [w.enc mol]))), s ++ flat q es) := by
+  rw [store_component_leaves _ _ _ _ (leaves_cons (leaf_str _) leaves_nil)] at hm
+  obtain rfl := Except.ok.inj hm
+  rw [gas_write_log w hw c attr part mol h1 h2]
+  simp only [flat, List.map, leafNode_str, flatNode, List.append_assoc, List.cons_append, List.nil_append,
+    List.append_nil]
+
+/-- **`ConstantGas.write(output)`**: `Gas.write`, then the mixing ratio under the constructor's name `mix_ratio` -/
+theorem src_constantgas_write (w : WWorld α) (hw : WWorldOK w) (c : List Nat) (attr : String → Option (Value α))
+    (part : String → Option (SubComp α)) (mol : List Nat) (mr : Value α) (hmr : Scalar mr)
+    (h1 : attr "molecule" = some (.str mol)) (h2 : attr "_molecule_name" = some (.str mol))
+    (h3 : attr "_mix_ratio" = some mr) (q : List String) (s : Log α) (es : List (String × Node α))
+    (hm : storeThing (w.enc mol) (writeComponent "gas_type" c [("molecule_name", .str mol), ("mix_ratio", mr)]) = .ok es) :
+    SrcC16.constantgas_write w.ext (.obj (.comp c attr part)) (.obj (.group q)) s
+      = (.ok (.obj (.group (q ++ [w.enc mol]))), s ++ flat q es) := by
+  rw [store_component_leaves _ _ _ _ (leaves_cons (leaf_str _) (leaves_cons (leaf_scalar hmr) leaves_nil))] at hm
+  obtain rfl := Except.ok.inj hm
+  unfold SrcC16.constantgas_write
+  simp only [eff_bind, gas_write_log w hw c attr part mol h1 h2, Dyn.getAttr, Dyn.callMethod, eff_pure,
+    w_attr w c attr part "_mix_ratio" _ (by decide) h3, w_write_scalar w _ _ _ hmr, flat, List.map,
+    flatNode_leaf _ _ (leaf_scalar hmr), leafNode_str, flatNode, List.append_assoc, List.cons_append, List.nil_append,
+    List.append_nil]
+
+/-- **`TwoLayerGas.write(output)`**: `Gas.write`, then top / surface mixing ratio, the boundary pressure and the
+    smoothing window under the constructor's names -/
+theorem src_twolayergas_write (w : WWorld α) (hw : WWorldOK w) (c : List Nat) (attr : String → Option (Value α))
+    (part : String → Option (SubComp α)) (mol : List Nat) (top surf P sm : Value α) (htop : Scalar top)
+    (hsurf : Scalar surf) (hP : Scalar P) (hsm : Scalar sm)
+    (h1 : attr "molecule" = some (.str mol)) (h2 : attr "_molecule_name" = some (.str mol))
+    (h3 : attr "mixRatioTop" = some top) (h4 : attr "mixRatioSurface" = some surf)
+    (h5 : attr "mixRatioPressure" = some P) (h6 : attr "mixRatioSmoothing" = some sm)
+    (q : List String) (s : Log α) (es : List (String × Node α))
+    (hm : storeThing (w.enc mol) (writeComponent "gas_type" c [("molecule_name", .str mol), ("mix_ratio_top", top),
+      ("mix_ratio_surface", surf), ("mix_ratio_P", P), ("mix_ratio_smoothing", sm)]) = .ok es) :
+    SrcC16.twolayergas_write w.ext (.obj (.comp c attr part)) (.obj (.group q)) s
+      = (.ok (.obj (.group (q ++ [w.enc mol]))), s ++ flat q es) := by
+  rw [store_component_leaves _ _ _ _ (leaves_cons (leaf_str _) (leaves_cons (leaf_scalar htop)
+    (leaves_cons (leaf_scalar hsurf) (leaves_cons (leaf_scalar hP) (leaves_cons (leaf_scalar hsm) leaves_nil)))))] at hm
+  obtain rfl := Except.ok.inj hm
+  unfold SrcC16.twolayergas_write
+  simp only [eff_bind, gas_write_log w hw c attr part mol h1 h2, Dyn.getAttr, Dyn.callMethod, eff_pure,
+    w_attr w c attr part "mixRatioTop" _ (by decide) h3, w_attr w c attr part "mixRatioSurface" _ (by decide) h4,
+    w_attr w c attr part "mixRatioPressure" _ (by decide) h5, w_attr w c attr part "mixRatioSmoothing" _ (by decide) h6,
+    w_write_scalar w _ _ _ htop, w_write_scalar w _ _ _ hsurf, w_write_scalar w _ _ _ hP, w_write_scalar w _ _ _ hsm,
+    flat, List.map, flatNode_leaf _ _ (leaf_scalar htop), flatNode_leaf _ _ (leaf_scalar hsurf),
+    flatNode_leaf _ _ (leaf_scalar hP), flatNode_leaf _ _ (leaf_scalar hsm), leafNode_str, flatNode,
+    List.append_assoc, List.cons_append, List.nil_append, List.append_nil]
+
+/-- **`TwoPointGas.write(output)`**: `Gas.write`, then top / surface mixing ratio -/
+theorem src_twopointgas_write (w : WWorld α) (hw : WWorldOK w) (c : List Nat) (attr : String → Option (Value α))
+    (part : String → Option (SubComp α)) (mol : List Nat) (top surf : Value α) (htop : Scalar top) (hsurf : Scalar surf)
+    (h1 : attr "molecule" = some (.str mol)) (h2 : attr "_molecule_name" = some (.str mol))
+    (h3 : attr "mixRatioTop" = some top) (h4 : attr "mixRatioSurface" = some surf)
+    (q : List String) (s : Log α) (es : List (String × Node α))
+    (hm : storeThing (w.enc mol) (writeComponent "gas_type" c [("molecule_name", .str mol), ("mix_ratio_top", top),
+      ("mix_ratio_surface", surf)]) = .ok es) :
+    SrcC16.twopointgas_write w.ext (.obj (.comp c attr part)) (.obj (.group q)) s
+      = (.ok (.obj (.group (q ++ [w.enc mol]))), s ++ flat q es) := by
+  rw [store_component_leaves _ _ _ _ (leaves_cons (leaf_str _) (leaves_cons (leaf_scalar htop)
+    (leaves_cons (leaf_scalar hsurf) leaves_nil)))] at hm
+  obtain rfl := Except.ok.inj hm
+  unfold SrcC16.twopointgas_write
+  simp only [eff_bind, gas_write_log w hw c attr part mol h1 h2, Dyn.getAttr, Dyn.callMethod, eff_pure,
+    w_attr w c attr part "mixRatioTop" _ (by decide) h3, w_attr w c attr part "mixRatioSurface" _ (by decide) h4,
+    w_write_scalar w _ _ _ htop, w_write_scalar w _ _ _ hsurf,
+    flat, List.map, flatNode_leaf _ _ (leaf_scalar htop), flatNode_leaf _ _ (leaf_scalar hsurf), leafNode_str, flatNode,
+    List.append_assoc, List.cons_append, List.nil_append, List.append_nil]
+
+/-- **`PowerGas.write(output)`**: `Gas.write`, the profile type, then those of `alpha`, `mix_ratio_surface`, `beta`,
+    `gamma` that are not `None` (`present`; a coefficient left to the automatic profile is `None`), in that order -/
+theorem src_powergas_write (w : WWorld α) (hw : WWorldOK w) (c : List Nat) (attr : String → Option (Value α))
+    (part : String → Option (SubComp α)) (mol pt : List Nat) (al surf be ga : Value α)
+    (hal : al = .unsupported ∨ Scalar al) (hsurf : surf = .unsupported ∨ Scalar surf)
+    (hbe : be = .unsupported ∨ Scalar be) (hga : ga = .unsupported ∨ Scalar ga)
+    (h1 : attr "molecule" = some (.str mol)) (h2 : attr "_molecule_name" = some (.str mol))
+    (h3 : attr "_profile_type" = some (.str pt)) (h4 : attr "alpha" = some al) (h5 : attr "mixRatioSurface" = some surf)
+    (h6 : attr "beta" = some be) (h7 : attr "gamma" = some ga)
+    (q : List String) (s : Log α) (es : List (String × Node α))
+    (hm : storeThing (w.enc mol) (writeComponent "gas_type" c ([("molecule_name", .str mol), ("profile_type", .str pt)] ++
+      present [("alpha", al), ("mix_ratio_surface", surf), ("beta", be), ("gamma", ga)])) = .ok es) :
+    SrcC16.powergas_write w.ext (.obj (.comp c attr part)) (.obj (.group q)) s
+      = (.ok (.obj (.group (q ++ [w.enc mol]))), s ++ flat q es) := by
+  have hopt : ∀ e ∈ [("alpha", al), ("mix_ratio_surface", surf), ("beta", be), ("gamma", ga)],
+      e.2 = Value.unsupported ∨ Scalar e.2 := by
+    intro e he
+    simp only [List.mem_cons, List.not_mem_nil, or_false] at he
+    rcases he with rfl | rfl | rfl | rfl <;> assumption
+  have hpl := present_leaves _ hopt
+  rw [store_component_leaves _ _ _ _ (by
+    intro e he
+    rcases List.mem_append.1 he with he | he
+    · simp only [List.mem_cons, List.not_mem_nil, or_false] at he
+      rcases he with rfl | rfl <;> exact leaf_str _
+    · exact leaf_scalar (hpl e he))] at hm
+  obtain rfl := Except.ok.inj hm
+  unfold SrcC16.powergas_write
+  simp only [eff_bind, gas_write_log w hw c attr part mol h1 h2, Dyn.getAttr, Dyn.callMethod, eff_pure,
+    w_attr w c attr part "_profile_type" _ (by decide) h3, w_attr w c attr part "alpha" _ (by decide) h4,
+    w_attr w c attr part "mixRatioSurface" _ (by decide) h5, w_attr w c attr part "beta" _ (by decide) h6,
+    w_attr w c attr part "gamma" _ (by decide) h7, embW, w_write_string, hw pt, Dyn.iter]
+  have hf : ∀ (body : Unit → WV α → SM α Unit) (st : Log α),
+      (∀ (k : String) (v : Value α) (s : Log α), body () (.tuple [.str k, embW w.enc v]) s
+        = (if (!Dyn.Val.isNone (embW w.enc v)) = true then
+            (w.ext.method (.group (q ++ [w.enc mol])) "write_scalar" [.str k, embW w.enc v] [] >>= fun _ => pure ()) s
+           else (.ok (), s))) →
+      Dyn.forM [(.tuple [.str "alpha", embW w.enc al] : WV α), .tuple [.str "mix_ratio_surface", embW w.enc surf],
+        .tuple [.str "beta", embW w.enc be], .tuple [.str "gamma", embW w.enc ga]] () body st
+        = (.ok (), st ++ (present [("alpha", al), ("mix_ratio_surface", surf), ("beta", be), ("gamma", ga)]).map
+            (fun e => (q ++ [w.enc mol], e.1, leafNode e.2))) :=
+    fun body st hb => forM_present w (q ++ [w.enc mol]) body hb _ st hopt
+  rw [hf _ _ (fun k v s => by
+    simp only [Dyn.unpack2, Dyn.unpack, Dyn.iter, eff_bind, eff_pure, List.length_cons, List.length_nil, if_true,
+      Dyn.callMethod]
+    by_cases hn : Dyn.Val.isNone (embW w.enc v) = true <;> simp [hn, eff_bind])]
+  simp only [flat, flatNode, List.map_append, List.map, leafNode_str, flat_append, flat_leaves _ _ hpl,
+    List.append_assoc, List.cons_append, List.nil_append, List.append_nil]
+
+/-- `Contribution.write(output)`, as the log it leaves -/
+theorem contribution_write_log (w : WWorld α) (c : List Nat) (attr : String → Option (Value α))
+    (part : String → Option (SubComp α)) (q : List String) (s : Log α) :
+    SrcC16.contribution_write w.ext (.obj (.comp c attr part)) (.obj (.group q)) s
+      = (.ok (.obj (.group (q ++ [w.enc c]))), s ++ [(q, w.enc c, .group [])]) := by
+  unfold SrcC16.contribution_write
+  simp only [eff_bind, Dyn.callMethod, w_create_group, Dyn.getAttr, w_class, w_name, eff_pure]
+
+/-- **`Contribution.write(output)`** (also `AbsorptionContribution` and `RayleighContribution`, which inherit it) creates
+    an empty group named like the class: what the model's writer stores for the empty dictionary under that name -/
+theorem src_contribution_write (w : WWorld α) (hw : WWorldOK w) (c : List Nat) (attr : String → Option (Value α))
+    (part : String → Option (SubComp α)) (q : List String) (s : Log α) (es : List (String × Node α))
+    (hm : storeThing (w.enc c) (.dict ([] : List (String × Value α))) = .ok es) :
+    SrcC16.contribution_write w.ext (.obj (.comp c attr part)) (.obj (.group q)) s
+      = (.ok (.obj (.group (q ++ [w.enc c]))), s ++ flat q es) := by
+  rw [store_dict_leaves _ _ leaves_nil] at hm
+  obtain rfl := Except.ok.inj hm
+  rw [contribution_write_log]
+  simp only [flat, flatNode, List.map, List.append_nil]
+
+/-- **`SimpleCloudsContribution.write(output)`**: the group named like the class with the cloud-top pressure under the
+    constructor's name `clouds_pressure` -/
+theorem src_simpleclouds_write (w : WWorld α) (hw : WWorldOK w) (c : List Nat) (attr : String → Option (Value α))
+    (part : String → Option (SubComp α)) (P : Value α) (hP : Scalar P) (h1 : attr "_cloud_pressure" = some P)
+    (q : List String) (s : Log α) (es : List (String × Node α))
+    (hm : storeThing (w.enc c) (.dict [("clouds_pressure", P)]) = .ok es) :
+    SrcC16.simpleclouds_write w.ext (.obj (.comp c attr part)) (.obj (.group q)) s
+      = (.ok (.obj (.group (q ++ [w.enc c]))), s ++ flat q es) := by
+  rw [store_dict_leaves _ _ (leaves_cons (leaf_scalar hP) leaves_nil)] at hm
+  obtain rfl := Except.ok.inj hm
+  unfold SrcC16.simpleclouds_write
+  simp only [eff_bind, contribution_write_log, Dyn.getAttr, Dyn.callMethod, eff_pure,
+    w_attr w c attr part "_cloud_pressure" _ (by decide) h1, w_write_scalar w _ _ _ hP, flat, List.map,
+    flatNode_leaf _ _ (leaf_scalar hP), flatNode, List.append_assoc, List.cons_append, List.nil_append, List.append_nil]
+
+/-- **`FlatMieContribution.write(output)`**: mixing ratio, bottom and top pressure under the constructor's names -/
+theorem src_flatmie_write (w : WWorld α) (hw : WWorldOK w) (c : List Nat) (attr : String → Option (Value α))
+    (part : String → Option (SubComp α)) (mix bot top : Value α) (hmix : Scalar mix) (hbot : Scalar bot)
+    (htop : Scalar top) (h1 : attr "_mie_mix" = some mix) (h2 : attr "_mie_bottom_pressure" = some bot)
+    (h3 : attr "_mie_top_pressure" = some top) (q : List String) (s : Log α) (es : List (String × Node α))
+    (hm : storeThing (w.enc c) (.dict [("flat_mix_ratio", mix), ("flat_bottomP", bot), ("flat_topP", top)]) = .ok es) :
+    SrcC16.flatmie_write w.ext (.obj (.comp c attr part)) (.obj (.group q)) s
+      = (.ok (.obj (.group (q ++ [w.enc c]))), s ++ flat q es) := by
+  rw [store_dict_leaves _ _ (leaves_cons (leaf_scalar hmix) (leaves_cons (leaf_scalar hbot)
+    (leaves_cons (leaf_scalar htop) leaves_nil)))] at hm
+  obtain rfl := Except.ok.inj hm
+  unfold SrcC16.flatmie_write
+  simp only [eff_bind, contribution_write_log, Dyn.getAttr, Dyn.callMethod, eff_pure,
+    w_attr w c attr part "_mie_mix" _ (by decide) h1, w_attr w c attr part "_mie_bottom_pressure" _ (by decide) h2,
+    w_attr w c attr part "_mie_top_pressure" _ (by decide) h3, w_write_scalar w _ _ _ hmix, w_write_scalar w _ _ _ hbot,
+    w_write_scalar w _ _ _ htop, flat, List.map, flatNode_leaf _ _ (leaf_scalar hmix),
+    flatNode_leaf _ _ (leaf_scalar hbot), flatNode_leaf _ _ (leaf_scalar htop), flatNode, List.append_assoc,
+    List.cons_append, List.nil_append, List.append_nil]
+
+/-- **`CIAContribution.write(output)`**: the group named like the class; the pair names as a fixed-width string array
+    (`Output.stringNode`) if there are any — what the model's writer stores for that dictionary -/
+theorem src_cia_write (w : WWorld α) (hw : WWorldOK w) (c : List Nat) (attr : String → Option (Value α))
+    (part : String → Option (SubComp α)) (pairs : List (List Nat)) (h1 : attr "ciaPairs" = some (.list (pairs.map .str)))
+    (q : List String) (s : Log α) (es : List (String × Node α))
+    (hm : storeThing (w.enc c)
+      (.dict (if pairs = [] then [] else [("cia_pairs", Value.list (pairs.map .str))])) = .ok es) :
+    SrcC16.cia_write w.ext (.obj (.comp c attr part)) (.obj (.group q)) s
+      = (.ok (.obj (.group (q ++ [w.enc c]))), s ++ flat q es) := by
+  unfold SrcC16.cia_write
+  simp only [eff_bind, contribution_write_log, Dyn.getAttr, Dyn.callMethod, eff_pure,
+    w_attr w c attr part "ciaPairs" _ (by decide) h1, embW, Dyn.len, embWL_length, List.length_map, Dyn.compare,
+    Dyn.indexOf, Dyn.truthy]
+  cases pairs with
+  | nil =>
+    simp only [if_true] at hm
+    rw [store_dict_leaves _ _ leaves_nil] at hm
+    obtain rfl := Except.ok.inj hm
+    simp [eff_pure, flat, flatNode]
+  | cons p ps =>
+    have hne : (p :: ps = []) = False := by simp
+    simp only [hne, if_false] at hm
+    obtain ⟨ch, hch, rfl⟩ := storeThing_dict_ok hm
+    have hany : (List.map Value.str (p :: ps) : List (Value α)).any Output.isStr = true := by simp [Output.isStr]
+    simp only [storeEntries, storeThing, hany, if_true, stringList_strs] at hch
+    obtain rfl := Except.ok.inj hch
+    rw [if_pos (by simp)]
+    simp only [eff_bind, eff_pure, Dyn.getAttr, Dyn.callMethod, w_attr w c attr part "ciaPairs" _ (by decide) h1, embW,
+      w_write_string_array w hw, flat, flatNode, stringNode, List.append_assoc, List.cons_append, List.nil_append,
+      List.append_nil]
 
 end write
 
